@@ -132,7 +132,7 @@ add("C38", "c_misc",
     note="Reference RLE / serializer used for classification and diagnostics only.")
 add("C39", "c_misc",
     [T("TestC39Messages", 20000, 200000), T("TestC39Dialogs", 20000, 200000), T("TestC39Interrupted", 20000, 200000)],
-    rule="histories of N in 0..60 messages (ids strictly descending with gaps) / dialogs (distinct (date, top id, peer)), page size 1..N+1, exact multiples of the page size forced in ~1/3, response kinds full/slice/channelMessages, Iter/ForEach/Collect, GetHistory/Search; fake server with Telegram offset semantics over TL-encoded responses; TestC39Interrupted: a failing request at a drawn index or the context ending after a drawn number of items (the yielded list must be a prefix, and a clean end is allowed only after the last item). non-trivial = N > page size / an interruption that was reported; distinct by history+page+kind",
+    rule="a quarter of the message histories carry dates that disagree with the id order (imported / scheduled messages; the server pages by id); histories of N in 0..60 messages (ids strictly descending with gaps) / dialogs (distinct (date, top id, peer)), page size 1..N+1, exact multiples of the page size forced in ~1/3, response kinds full/slice/channelMessages, Iter/ForEach/Collect, GetHistory/Search; fake server with Telegram offset semantics over TL-encoded responses; TestC39Interrupted: a failing request at a drawn index or the context ending after a drawn number of items (the yielded list must be a prefix, and a clean end is allowed only after the last item). non-trivial = N > page size / an interruption that was reported; distinct by history+page+kind",
     technique="model-based PBT (rapid): iterator output vs. the server's list",
     text="The yielded sequence equals the history exactly (order, no duplicate, no omission); Next stays false afterwards.",
     note="Server offset_date semantics of getHistory are not exercised.")
@@ -190,7 +190,7 @@ add("C32", "c_files",
     assumptions=["source content is a pure function of the offset"])
 add("C33", "c_files",
     [T("TestC33", 8000, 100000, env=BUBBLE), T("TestC33Parallel", 4000, 50000, env={"GOMAXPROCS": "4"}), T("TestC34HashFlood", 10, 100, env={"GOMAXPROCS": "4"}, shards=4)],
-    rule="file sizes around k*part, exact multiples, uniform, tiny (<= 8 MiB); part sizes 4 KiB..1 MiB; 1..8 threads; Stream/Parallel; honest master with per-(chunk,attempt) faults FLOOD_WAIT, FLOOD_PREMIUM_WAIT, rpc Timeout, context.DeadlineExceeded, net timeouts; latencies 0/5/50/3000 ms so replies complete out of order; in a third of the cases the Downloader (and its buffer pool) was used before for another file, that download completed or cancelled at a drawn request. non-trivial = size % part == 0 or (Parallel, threads>=2, >=1 retry); distinct by parameters",
+    rule="part sizes 4 KiB..1 MiB, among them sizes that do not divide 1 MiB (12/160/384/768 KiB: WithPartSize documents only divisibility by 4 KB); file sizes around k*part, exact multiples, uniform, tiny (<= 8 MiB); part sizes 4 KiB..1 MiB; 1..8 threads; Stream/Parallel; honest master with per-(chunk,attempt) faults FLOOD_WAIT, FLOOD_PREMIUM_WAIT, rpc Timeout, context.DeadlineExceeded, net timeouts; latencies 0/5/50/3000 ms so replies complete out of order; in a third of the cases the Downloader (and its buffer pool) was used before for another file, that download completed or cancelled at a drawn request. non-trivial = size % part == 0 or (Parallel, threads>=2, >=1 retry); distinct by parameters",
     technique="model-based PBT on virtual time (rapid + synctest): written bytes vs. the model file",
     text="Stream: exact byte sequence; Parallel: every WriteAt matches the file, spans tile [0,size) without gap or overlap; returned type equals served type; requests stay on the part grid.",
     note="")
@@ -250,7 +250,7 @@ add("C04", "c_crypto",
     note="The reference (pbt/ref/crypto.go) is anchored by the OpenSSL IGE vectors in TestRefSelfCheck.")
 add("C05", "c_crypto",
     [T("TestC05", 300000, 2000000, env=P4)],
-    rule="valid ciphertexts (50% impl-produced, 50% reference-produced) under one of 17 mutations: bit flips in key id / msg_key / body / edges, k-bit flips, truncation and extension (aligned and not), block swap/dup, replaced key id, other key with the same id, re-keying, reflection, wrong receiver key, splice. non-trivial = the mutated wire still has a valid length, so rejection must come from key id or msg_key; distinct by case",
+    rule="valid ciphertexts (50% impl-produced, 50% reference-produced; in about 1/8 of the cases the AuthKey is hand-built with a zero cached id and the message impl-produced) under one of 17 mutations: bit flips in key id / msg_key / body / edges, k-bit flips, truncation and extension (aligned and not), block swap/dup, replaced key id, other key with the same id, re-keying, reflection, wrong receiver key, splice. non-trivial = the mutated wire still has a valid length, so rejection must come from key id or msg_key; distinct by case",
     technique="mutation-based PBT (rapid) with a metamorphic control (the unmutated ciphertext still decrypts)",
     text="Every mutation that changes a byte yields an error and a nil message from both Decrypt entry points; identity mutations are counted and skipped.",
     note="Key domain: random keys with <= 7 leading zero bytes (keys invariant under the x=0/8 offset make reflection legitimately acceptable); a 'different key' differs inside bytes MTProto 2.0 reads.")
